@@ -497,12 +497,9 @@ fn kills(v: &Verdicts, thorough: bool) -> (u64, u64, BTreeSet<String>, Vec<serde
     (judged, outside, distinct, samples)
 }
 
-pub fn run(tier: &str) -> i32 {
-    quiet_panics();
-    let thorough = tier == "thorough";
-    let v = Verdicts::load("C16");
-    let mut ev = Evidence::new("C16", tier, "fault_enumeration");
-    let st = Mutex::new(Stats { histories: 0, restarts: 0, records_decoded: 0, logs_discarded: 0, shapes: BTreeSet::new(), samples: vec![] });
+
+/// (A) of the check: systematic + random histories on this process's configuration. Returns the number of systematic cases.
+fn histories(v: &Verdicts, st: &Mutex<Stats>, n_random: usize) -> usize {
     let mut rng = Rng::new(seed());
     let mut cases: Vec<Vec<Op>> = vec![];
     // systematic: create 1-3 dbs, write, snapshot a subset, restart (clean|kill), create another db, write
@@ -530,7 +527,6 @@ pub fn run(tier: &str) -> i32 {
         }
     }
     let systematic = cases.len();
-    let n_random = if thorough { 60_000 } else { 4_000 };
     for _ in 0..n_random {
         let len = rng.range(4, 24);
         cases.push((0..len).map(|_| random_op(&mut rng)).collect());
@@ -538,7 +534,7 @@ pub fn run(tier: &str) -> i32 {
     let next = std::sync::atomic::AtomicUsize::new(0);
     std::thread::scope(|sc| {
         for w in 0..workers() {
-            let (next, v, st, cases) = (&next, &v, &st, &cases);
+            let (next, v, st, cases) = (&next, v, st, &cases);
             sc.spawn(move || {
                 let dir = fresh_dir(&format!("c16-w{}", w));
                 loop {
@@ -553,6 +549,57 @@ pub fn run(tier: &str) -> i32 {
             });
         }
     });
+    systematic
+}
+
+/// The same histories in a child process whose operation log rotates after every second record
+/// (NUN_MAX_OP_LOG_SIZE is read once per process): discarding, decoding and id re-use are judged with rotated
+/// segments on disk. Returns (histories, restarts, records decoded) of the child.
+fn small_log_part(v: &Verdicts, tier: &str) -> (u64, u64, u64) {
+    let exe = std::env::current_exe().unwrap();
+    let out = std::process::Command::new(&exe)
+        .args(["c16-small", tier, &seed().to_string()])
+        .env("NUN_MAX_OP_LOG_SIZE", "500")
+        .env("VERIF_SEED", seed().to_string())
+        .output();
+    let Ok(o) = out else {
+        v.inconclusive("small-log child could not be started");
+        return (0, 0, 0);
+    };
+    let txt = String::from_utf8_lossy(&o.stdout).to_string();
+    let Some(doc) = txt.lines().rev().find_map(|l| serde_json::from_str::<serde_json::Value>(l).ok()) else {
+        v.inconclusive(&format!("small-log child gave no result: {}", String::from_utf8_lossy(&o.stderr).lines().last().unwrap_or("")));
+        return (0, 0, 0);
+    };
+    for r in doc["reports"].as_array().cloned().unwrap_or_default() {
+        let mut sig = r["signature"].clone();
+        sig["operation_log"] = json!("rotates-after-two-records");
+        v.report(sig, r["case"].clone());
+    }
+    (doc["histories"].as_u64().unwrap_or(0), doc["restarts"].as_u64().unwrap_or(0), doc["records_decoded"].as_u64().unwrap_or(0))
+}
+
+pub fn small_child(args: &[String]) -> i32 {
+    quiet_panics();
+    let thorough = args.get(2).map(|s| s == "thorough").unwrap_or(false);
+    let v = Verdicts::load("C16-small-log-child");
+    let st = Mutex::new(Stats { histories: 0, restarts: 0, records_decoded: 0, logs_discarded: 0, shapes: BTreeSet::new(), samples: vec![] });
+    histories(&v, &st, if thorough { 20_000 } else { 1_500 });
+    let s = st.into_inner().unwrap();
+    cleanup_scratch();
+    println!("{}", json!({"histories": s.histories, "restarts": s.restarts, "records_decoded": s.records_decoded, "reports": v.reports_json()}));
+    0
+}
+
+pub fn run(tier: &str) -> i32 {
+    quiet_panics();
+    let thorough = tier == "thorough";
+    let v = Verdicts::load("C16");
+    let mut ev = Evidence::new("C16", tier, "fault_enumeration");
+    let st = Mutex::new(Stats { histories: 0, restarts: 0, records_decoded: 0, logs_discarded: 0, shapes: BTreeSet::new(), samples: vec![] });
+    let systematic = histories(&v, &st, if thorough { 60_000 } else { 4_000 });
+    let n_random = if thorough { 60_000 } else { 4_000 };
+    let small = small_log_part(&v, tier);
     let (judged, outside, kdistinct, ksamples) = kills(&v, thorough);
     let s = st.into_inner().unwrap();
     ev.evaluations = s.histories + judged;
@@ -563,6 +610,7 @@ pub fn run(tier: &str) -> i32 {
     ev.set("records_decoded_after_restart", json!(s.records_decoded));
     ev.set("restarts_that_found_the_log_discarded_or_empty", json!(s.logs_discarded));
     ev.set("kill_points_judged", json!(judged));
+    ev.set("child_with_a_log_that_rotates_after_two_records", json!({"histories": small.0, "restarts_checked": small.1, "records_decoded_after_restart": small.2}));
     ev.set("known_findings_seen", json!(v.known_seen()));
     ev.violations = v.violation_count();
     ev.assumptions = vec![
